@@ -156,6 +156,111 @@ theorem complement_involutive (sem : Sem) (x : Bytes) :
     simp
   rw [this, List.map_id]
 
+-- ------------------------------------------------------------------ integer <-> bytes
+theorem toNatBE_append (xs : Bytes) (b : UInt8) : Bytes'.toNatBE (xs ++ [b]) = 256 * Bytes'.toNatBE xs + b.toNat := by
+  simp [Bytes'.toNatBE, List.foldl_append]
+
+theorem toNatBE_ofNatLE_reverse : ∀ n : Nat, Bytes'.toNatBE (Bytes'.ofNatLE n).reverse = n := by
+  intro n
+  induction n using Nat.strongRecOn with
+  | _ n ih =>
+    rw [Bytes'.ofNatLE]
+    by_cases h : n = 0
+    · simp [h, Bytes'.toNatBE]
+    · simp only [h, dite_false, List.reverse_cons]
+      rw [toNatBE_append, ih (n / 256) (by omega)]
+      have : (UInt8.ofNat (n % 256)).toNat = n % 256 := by
+        simp [UInt8.toNat_ofNat']
+      rw [this]; omega
+
+theorem toNatBE_zeros (k : Nat) (xs : Bytes) : Bytes'.toNatBE (List.replicate k (0 : UInt8) ++ xs) = Bytes'.toNatBE xs := by
+  induction k with
+  | zero => rfl
+  | succ k ih =>
+    simp only [List.replicate_succ, List.cons_append]
+    unfold Bytes'.toNatBE at *
+    simp only [List.foldl_cons]
+    simpa using ih
+
+theorem callBuiltin_of_core_con {sem : Sem} {b : Builtin} {args : List Value} {c : Const}
+    (h : callBuiltinCore sem b args = .ok (.con c)) : callBuiltin sem b args = .ok (.con c) := by
+  simp [callBuiltin, h, Res.bind]
+
+/-- `byteStringToInteger` inverts `integerToByteString` (core level): for every endianness, width and
+input, if the conversion succeeds then converting back gives the original integer -/
+theorem i2bs_bs2i_core (sem : Sem) (be : Bool) (w n : Int) (bs : Bytes)
+    (h : callBuiltinCore sem .integerToByteString [.con (.bool be), I w, I n] = .ok (.con (.bytestring bs))) :
+    callBuiltinCore sem .byteStringToInteger [.con (.bool be), BS bs] = .ok (.con (.integer n)) := by
+  have hgoal : ∀ bs', Bytes'.toNatBE (if be = true then bs' else bs'.reverse) = n.toNat → 0 ≤ n →
+      callBuiltinCore sem .byteStringToInteger [.con (.bool be), BS bs'] = .ok (.con (.integer n)) := by
+    intro bs' hb hn
+    simp only [callBuiltinCore, getArgB, List.getElem?_cons_zero, List.getElem?_cons_succ,
+      Value.unwrapBool, Value.unwrapByteString, bind, Res.bind, pure, hb]
+    congr 3; omega
+  simp only [callBuiltinCore, getArgB, List.getElem?_cons_zero, List.getElem?_cons_succ,
+    Value.unwrapBool, Value.unwrapInteger, bind, Res.bind, pure] at h
+  split at h
+  · cases h
+  · split at h
+    · cases h
+    · rename_i hneg
+      split at h
+      · cases h
+      · split at h
+        · rename_i hz
+          injection h with h; injection h with h; injection h with h
+          subst h; subst hz
+          apply hgoal _ _ (by omega)
+          have hz0 : Bytes'.toNatBE (List.replicate w.toNat (0 : UInt8)) = 0 := by
+            have := toNatBE_zeros w.toNat []
+            simp only [List.append_nil] at this
+            rw [this]; rfl
+          cases be <;> simp [List.reverse_replicate, hz0]
+        · split at h
+          · cases h
+          · split at h
+            · injection h with h; injection h with h; injection h with h
+              subst h
+              apply hgoal _ _ (by omega)
+              cases be
+              · simp only [Bool.false_eq_true, if_false, List.reverse_append, List.reverse_replicate]
+                rw [toNatBE_zeros, toNatBE_ofNatLE_reverse]
+              · simp only [if_true]
+                rw [toNatBE_zeros, toNatBE_ofNatLE_reverse]
+            · injection h with h; injection h with h; injection h with h
+              subst h
+              apply hgoal _ _ (by omega)
+              cases be
+              · simp only [Bool.false_eq_true, if_false]
+                rw [toNatBE_ofNatLE_reverse]
+              · simp only [if_true]
+                rw [toNatBE_ofNatLE_reverse]
+
+/-- **`byteStringToInteger` inverts `integerToByteString`**: for every endianness, requested width and
+integer, whenever the conversion succeeds, converting the bytes back gives the original integer -/
+theorem i2bs_bs2i (sem : Sem) (be : Bool) (w n : Int) (bs : Bytes)
+    (h : callBuiltin sem .integerToByteString [.con (.bool be), I w, I n] = .ok (BS bs)) :
+    callBuiltin sem .byteStringToInteger [.con (.bool be), BS bs] = .ok (I n) := by
+  apply callBuiltin_of_core_con
+  apply i2bs_bs2i_core sem be w n bs
+  unfold callBuiltin at h
+  cases hc : callBuiltinCore sem .integerToByteString [.con (.bool be), I w, I n] with
+  | ok o =>
+    rw [hc] at h
+    cases o with
+    | con c => simp only [Res.bind] at h; injection h with h; injection h with h; rw [h]
+    | arg i =>
+      exfalso
+      simp only [Res.bind, getArgB] at h
+      match i with
+      | 0 => simp at h
+      | 1 => simp at h
+      | 2 => simp at h
+      | (k + 3) => simp at h
+  | err => rw [hc] at h; cases h
+  | panic => rw [hc] at h; cases h
+  | unmodelled => rw [hc] at h; cases h
+
 -- ------------------------------------------------------------------ data
 /-- constructors and destructors of `data` are mutually inverse -/
 theorem data_constructors_destructors (sem : Sem) (n : Int) (b : Bytes) (ds : List Data) (es : List (Data × Data)) :
